@@ -18,8 +18,13 @@ class Table:
         self.index[k] = len(self.nodes)
         return len(self.nodes)
 
-    def const(self, bs):
-        return self._intern({"k": "c", "w": len(bs), "b": list(bs)})
+    def const(self, bs, tail=None):
+        """tail: bytes the harness puts *behind* the constant in its backing array (the constant is made by narrowing
+        a wider one, as the lifter and the memories do); invisible to the specification - the value is bs."""
+        n = {"k": "c", "w": len(bs), "b": list(bs)}
+        if tail:
+            n["x"] = list(tail)
+        return self._intern(n)
 
     def constn(self, n, w):
         return self.const([(n >> (8 * i)) & 255 for i in range(w)])
